@@ -205,7 +205,7 @@ func getHashField(b *opBuild, field string) string {
 func c07Labels(typ string, b *opBuild) []string {
 	l := []string{"cfg-op-size-minus-1", "cfg-hash-length-minus-1", "cfg-hash-alg-not-listed", "req-type-unknown", "req-type-missing", "req-hash-wrong-alg", "req-hash-too-long"}
 	if typ != "deactivate" {
-		l = append(l, "cfg-delta-size-minus-1", "cfg-patch-action-disabled", "req-delta-missing", "req-delta-empty-patches", "req-delta-invalid-patch", "req-delta-oversize-by-one")
+		l = append(l, "cfg-delta-size-minus-1", "cfg-patch-action-disabled", "cfg-patches-empty", "req-delta-missing", "req-delta-empty-patches", "req-delta-invalid-patch", "req-delta-oversize-by-one")
 	}
 	if typ != "create" {
 		l = append(l, "cfg-sig-alg-not-allowed", "cfg-key-curve-not-allowed", "req-alg-missing", "req-alg-empty", "req-extra-header", "req-key-missing-member",
@@ -280,6 +280,11 @@ func TestC07_ParserAcceptsExactly(t *testing.T) {
 			drop := rapid.SampledFrom(usedActions(b)).Draw(t, "dropAction")
 			q.Patches = without(q.Patches, drop)
 			detail = drop
+		case "cfg-patches-empty":
+			q.Patches = nil
+			if rapid.Bool().Draw(t, "emptyNotNil") {
+				q.Patches = []string{}
+			}
 		case "cfg-sig-alg-not-allowed":
 			q.SignatureAlgorithms = without(allSigAlgs, b.SignKey.Type.Alg())
 		case "cfg-key-curve-not-allowed":
@@ -389,10 +394,18 @@ func TestC07_ParserAcceptsExactly(t *testing.T) {
 		case "req-update-equals-recovery-commitment":
 			setHashField(m, "delta.updateCommitment", m.NextRecov.Commitment(alg), alg)
 		case "req-next-commitment-is-current-key":
+			// the current key's commitment, under the request's algorithm or (both configured) under the other one
+			calg := alg
+			if rapid.Bool().Draw(t, "commitmentOtherAlg") {
+				calg = 37 - alg
+				q.MultihashAlgorithms = []uint{alg, calg}
+				q.MaxOperationHashLength = 100
+				detail = "commitment-under-other-algorithm"
+			}
 			if typ == "update" {
-				setHashField(m, "delta.updateCommitment", m.SignKey.Commitment(alg), alg)
+				setHashField(m, "delta.updateCommitment", m.SignKey.Commitment(calg), alg)
 			} else {
-				setHashField(m, "signed.recoveryCommitment", m.SignKey.Commitment(alg), alg)
+				setHashField(m, "signed.recoveryCommitment", m.SignKey.Commitment(calg), alg)
 			}
 		case "req-signed-suffix-mismatch":
 			m.Signed["didSuffix"] = refHash(map[string]interface{}{"s": "other"}, alg)
